@@ -7,6 +7,7 @@ import FB.Wire
 import FB.Codec
 import FB.CreatedFiles
 import FB.BuildDirs
+import FB.PathNorm
 import FB.Conc
 open FB FB.Wire
 open Lean (Json)
@@ -321,6 +322,18 @@ def runBD (j : Lean.Json) : Except String Lean.Json := do
       | x => throw s!"bad bd command {x}"
   return Json.mkObj [("outs", .arr outs)]
 
+/-- `_sanitize_filename` (`FB.PathNorm.abspath`) on a list of spellings -/
+def runPath (j : Lean.Json) : Except String Lean.Json := do
+  let cwd ← (← (← j.getObjVal? "cwd").getArr?).toList.mapM (·.getStr?)
+  let items ← (← j.getObjVal? "items").getArr?
+  let outs ← items.toList.mapM fun it => do
+    let a ← it.getArr?
+    let n ← getNat (a[0]?.getD Lean.Json.null)
+    let comps ← (← (a[1]?.getD Lean.Json.null).getArr?).toList.mapM (·.getStr?)
+    let r := FB.PathNorm.abspath cwd n comps
+    pure (Lean.Json.arr #[.num (.fromNat r.1), .arr (r.2.map Lean.Json.str).toArray])
+  return Json.mkObj [("outs", .arr outs.toArray)]
+
 def handle (line : String) : Lean.Json :=
   match Lean.Json.parse line with
   | .error e => Json.mkObj [("bad-op", .str e)]
@@ -334,6 +347,7 @@ def handle (line : String) : Lean.Json :=
       | "codec" => runCodec j
       | "cf" => runCF j
       | "bd" => runBD j
+      | "path" => runPath j
       | k => throw s!"unknown kind {k}"
     match r with
     | .ok out => out.setObjVal! "id" id
